@@ -25,7 +25,12 @@ Header kills (HEADER_STEPS) strike in the study parent while it writes the heade
 exists; `kill.case` then only selects how many input lines a header_mid_inputs cut leaves (header_lines()).
 
 Spec keys: dir, study_name, inputs [[name, nice, start, end, scale, must_include, n, as_tuple]], pool,
-counter_dir, raise_cases [int], kill {case, step, delay_ms} | null, work_ms, out, force_restart.
+counter_dir, raise_cases [int], raise_flag (path: the listed cases raise only while this file exists), raise_on,
+avoid_crashes, kill {case, step, delay_ms} | null, work_ms, out, force_restart,
+then [ {overrides: pool, raise_on, out, ...} ]  further runs of the study executed by THE SAME driver process
+     (rerun in the same interpreter: pathos' pool cache, module state); after every run but the last the driver
+     waits until the disk is quiet and stores snapshot() of the study directory in that run's output,
+prelude_dir  if given: an unrelated successful 2 x 2 study is run first in the same process with the same pool size.
 """
 import json
 import os
@@ -43,7 +48,7 @@ CASE_STEPS = ('pre_log', 'post_log', 'post_mkdir', 'post_func', 'mid_savez', 'po
 HEADER_STEPS = ('header_empty', 'header_mid_inputs', 'header_no_close')
 STEPS = CASE_STEPS + HEADER_STEPS
 
-CONFIG = {'counter_dir': None, 'raise_cases': (), 'work_ms': 0}
+CONFIG = {'counter_dir': None, 'raise_cases': (), 'work_ms': 0, 'raise_flag': None}
 KILL = {'case': None, 'step': None, 'delay_ms': 0, 'marker': None, 'lines': 1, 'n_inputs': 1, 'names': [], 'parent': None}
 
 
@@ -66,6 +71,8 @@ def study_function(this_run_dir, *args):
     values = [float(a) for a in args[:half]]
     k = _case_of_dir(this_run_dir)
     W.update(phase='studied', case=k)
+    if os.path.basename(os.path.dirname(os.path.normpath(this_run_dir))).startswith('prelude'):
+        return {'v': f_value(values), 'args': np.asarray(values, dtype=float)}      # unrelated study: not counted
     line = ('%d\t%s\n' % (k, json.dumps(values))).encode()
     fd = os.open(os.path.join(CONFIG['counter_dir'], 'case_%d.cnt' % k), os.O_WRONLY | os.O_CREAT | os.O_APPEND, 0o644)
     try:
@@ -74,7 +81,7 @@ def study_function(this_run_dir, *args):
         os.close(fd)
     if CONFIG['work_ms']:
         time.sleep(CONFIG['work_ms'] * ((k * 7 + 3) % 4) / 3000.0)
-    if k in CONFIG['raise_cases']:
+    if k in CONFIG['raise_cases'] and (CONFIG.get('raise_flag') is None or os.path.exists(CONFIG['raise_flag'])):
         W.update(phase='idle')          # this case ends here (error branch): the next log append starts a new case
         raise RuntimeError('injected study failure for case %d' % k)
     result = {'v': f_value(values), 'args': np.asarray(values, dtype=float)}
@@ -333,6 +340,84 @@ def _write_out(path, payload):
     os.replace(path + '.tmp', path)
 
 
+def snapshot(study_dir):
+    """Per case number (from the directory name): what a restart will find on disk."""
+    import numpy as np
+    snap = {}
+    if not os.path.isdir(study_dir):
+        return snap
+    for name in os.listdir(study_dir):
+        m = re.fullmatch(r'index_\(.*\)_run_(\d+)', name)
+        path = os.path.join(study_dir, name)
+        if m is None or not os.path.isdir(path):
+            continue
+        marker = os.path.isfile(os.path.join(path, 'mp_success.log'))
+        npz = os.path.join(path, 'mp_results.npz')
+        state = 'absent'
+        if os.path.isfile(npz):
+            state = 'broken'
+            try:
+                with np.load(npz) as z:
+                    float(z['v'])
+                    np.asarray(z['args'])
+                state = 'complete'
+            except Exception:  # noqa - any failure to load = not a complete result file
+                pass
+        snap[int(m.group(1))] = {'marker': marker, 'npz': state, 'error': os.path.isfile(os.path.join(path, 'error.log'))}
+    return snap
+
+
+def _disk_state(study_dir, counter_dir):
+    out = []
+    for d in (study_dir, counter_dir):
+        for root, dirs, files in os.walk(d):
+            for f in files:
+                try:
+                    out.append((os.path.join(root, f), os.path.getsize(os.path.join(root, f))))
+                except OSError:
+                    pass
+    return sorted(out)
+
+
+def _settle(study_dir, counter_dir, quiet_s=0.15, max_s=5.0):
+    """Same-process rerun: wait until no pool worker of the previous run writes any more (pool.map only
+    raises once every chunk is done, so this normally returns after the first quiet interval)."""
+    t_end = time.time() + max_s
+    prev = _disk_state(study_dir, counter_dir)
+    while time.time() < t_end:
+        time.sleep(quiet_s)
+        cur = _disk_state(study_dir, counter_dir)
+        if cur == prev:
+            return True
+        prev = cur
+    return False
+
+
+def _set_flag(path, on):
+    if path is None:
+        return
+    if on:
+        with open(path, 'w') as fh:
+            fh.write('raise\n')
+    elif os.path.exists(path):
+        os.remove(path)
+
+
+def _run_once(mod, me, run, inputs):
+    t0 = time.time()
+    try:
+        results = mod.multiprocessing_run(
+            run['dir'], run.get('study_name', 'c18'), me.study_function, tuple(inputs),
+            force_restart=bool(run.get('force_restart', False)), verbose=False, max_procs=int(run['pool']),
+            perform_memory_check=False, avoid_crashes=bool(run.get('avoid_crashes', True)))
+    except BaseException as e:  # noqa - reported to the caller, which judges it
+        import traceback
+        return dict(status='raised', exc_type=type(e).__name__, exc=str(e)[:500],
+                    traceback=''.join(traceback.format_exception(type(e), e, e.__traceback__))[-1800:])
+    return dict(status='none' if results is None else 'returned', results=me._jsonable(results),
+                wall_s=round(time.time() - t0, 3))
+
+
 def main(argv):
     with open(argv[1]) as fh:
         spec = json.load(fh)
@@ -343,30 +428,34 @@ def main(argv):
     import TidalPy.utilities.multiprocessing.multiprocessing as mod
     from vlib import mp_driver as me      # the importable twin of this module: what the workers resolve
 
+    # CONFIG is inherited by the pool workers when they fork; pathos keeps pools (and their workers) alive and
+    # reuses them for later studies with the same node count, so everything that changes between the runs of one
+    # driver process (do the listed cases raise?) is read from the disk (raise_flag), not from CONFIG.
     me.CONFIG.update(counter_dir=spec['counter_dir'], raise_cases=frozenset(spec.get('raise_cases') or ()),
-                     work_ms=int(spec.get('work_ms') or 0))
-    payload = {'status': None, 'inject_check': me._inject_check(mod), 'pgid': os.getpgrp(), 'pid': os.getpid()}
+                     work_ms=int(spec.get('work_ms') or 0), raise_flag=spec.get('raise_flag'))
+    base_payload = {'status': None, 'inject_check': me._inject_check(mod), 'pgid': os.getpgrp(), 'pid': os.getpid()}
     if spec.get('kill'):
         me.install_faults(mod, spec['kill'], spec['kill_marker'], names=[i[0] for i in spec['inputs']])
     inputs = []
     for name, nice, start, end, scale, must, n, as_tuple in spec['inputs']:
         must = tuple(must) if as_tuple else list(must)
         inputs.append(mod.MultiprocessingInput(name, nice, start, end, scale, must, n))
-    t0 = time.time()
-    try:
-        results = mod.multiprocessing_run(
-            spec['dir'], spec.get('study_name', 'c18'), me.study_function, tuple(inputs),
-            force_restart=bool(spec.get('force_restart', False)), verbose=False, max_procs=int(spec['pool']),
-            perform_memory_check=False, avoid_crashes=True)
-    except BaseException as e:  # noqa - reported to the caller, which judges it
-        import traceback
-        payload.update(status='raised', exc_type=type(e).__name__, exc=str(e)[:500],
-                       traceback=''.join(traceback.format_exception(type(e), e, e.__traceback__))[-1800:])
-        _write_out(spec['out'], payload)
-        return 0
-    payload.update(status='none' if results is None else 'returned', results=me._jsonable(results),
-                   wall_s=round(time.time() - t0, 3))
-    _write_out(spec['out'], payload)
+    _set_flag(spec.get('raise_flag'), False)
+    if spec.get('prelude_dir'):
+        # an unrelated, successful study earlier in the same process (same pool size): 2 x 2 cases, not counted
+        pre_inputs = [mod.MultiprocessingInput('p', 'P', 0., 1., 'linear', [], 2),
+                      mod.MultiprocessingInput('q', 'Q', 1., 2., 'linear', (), 2)]
+        pre = _run_once(mod, me, dict(spec, dir=spec['prelude_dir'], avoid_crashes=True), pre_inputs)
+        base_payload['prelude'] = {'status': pre['status'], 'n': len(pre.get('results') or []), 'exc': pre.get('exc')}
+    sequence = [spec] + [dict(spec, **o) for o in (spec.get('then') or [])]
+    for i, run in enumerate(sequence):
+        _set_flag(spec.get('raise_flag'), bool(run.get('raise_on', True)))
+        payload = dict(base_payload)
+        payload.update(_run_once(mod, me, run, inputs))
+        if i + 1 < len(sequence):
+            payload['settled'] = _settle(run['dir'], spec['counter_dir'])
+            payload['snapshot_after'] = {str(k): v for k, v in snapshot(run['dir']).items()}
+        _write_out(run['out'], payload)
     return 0
 
 
